@@ -317,19 +317,24 @@ type typeGuesser struct {
 }
 
 func (g *typeGuesser) Guess() (SchemaType, error) {
-	m := map[SchemaType]func() bool{
-		SchemaTypeString:  g.isString,
-		SchemaTypeInteger: g.isInteger,
-		SchemaTypeFloat:   g.isFloat,
-		SchemaTypeBoolean: g.isBoolean,
-		SchemaTypeObject:  g.isObject,
-		SchemaTypeArray:   g.isArray,
-		SchemaTypeNull:    g.isNull,
+	// In a fixed order (a map iteration would try them in a random one): the
+	// tests are not mutually exclusive, a quoted "1.5" also looks like a float.
+	m := []struct {
+		t  SchemaType
+		fn func() bool
+	}{
+		{SchemaTypeString, g.isString},
+		{SchemaTypeInteger, g.isInteger},
+		{SchemaTypeFloat, g.isFloat},
+		{SchemaTypeBoolean, g.isBoolean},
+		{SchemaTypeObject, g.isObject},
+		{SchemaTypeArray, g.isArray},
+		{SchemaTypeNull, g.isNull},
 	}
 
-	for t, fn := range m {
-		if fn() {
-			return t, nil
+	for _, x := range m {
+		if x.fn() {
+			return x.t, nil
 		}
 	}
 	return SchemaTypeUndefined, ErrUnknownSchemaType
